@@ -7,6 +7,7 @@
 
 use std::borrow::{Borrow, BorrowMut};
 use std::fmt::{self, Display, Formatter};
+use std::hash::{Hash, Hasher};
 use std::iter::{FromIterator, Product, Sum};
 use std::mem;
 use std::ptr;
@@ -1787,13 +1788,41 @@ macro_rules! vec_impl_vec {
         /// Consuming iterator over this module's vector type.
         // Can't (De)Serialize a ManuallyDrop<T>
         //#[cfg_attr(feature="serde", derive(Serialize, Deserialize))]
-        #[derive(Debug, Hash, PartialEq, Eq)]
         pub struct IntoIter<T> {
             // NOTE: Use a CVec and not $Vec; repr_simd vectors can't monomorphize ManuallyDrop<T>.
             vector: CVec<ManuallyDrop<T>>,
             start: usize,
             end: usize,
         }
+
+        // NOTE: Debug, Hash and PartialEq must only look at elements that weren't yielded yet
+        // (the others were moved out), so they can't be derived.
+        impl<T> IntoIter<T> {
+            #[inline]
+            fn remaining_priv(&self) -> &[ManuallyDrop<T>] {
+                &self.vector[self.start .. self.end]
+            }
+        }
+        impl<T: fmt::Debug> fmt::Debug for IntoIter<T> {
+            fn fmt(&self, f: &mut Formatter) -> fmt::Result {
+                f.debug_struct("IntoIter")
+                    .field("vector", &self.remaining_priv())
+                    .field("start", &self.start)
+                    .field("end", &self.end)
+                    .finish()
+            }
+        }
+        impl<T: Hash> Hash for IntoIter<T> {
+            fn hash<H: Hasher>(&self, state: &mut H) {
+                self.remaining_priv().hash(state);
+            }
+        }
+        impl<T: PartialEq> PartialEq for IntoIter<T> {
+            fn eq(&self, other: &Self) -> bool {
+                self.remaining_priv() == other.remaining_priv()
+            }
+        }
+        impl<T: Eq> Eq for IntoIter<T> {}
 
         // NOTE: Be careful to only drop elements that weren't yielded.
         impl<T> Drop for IntoIter<T> {
